@@ -914,7 +914,6 @@ C19State(s) ==
          /\ MinSqrtPrice \preceq s.pool[p].sqrtPrice /\ s.pool[p].sqrtPrice \preceq MaxSqrtPrice)
   /\ Sub("tier_bounds", \A t \in DOMAIN s.tier : s.tier[t].defaultFeeRate <= 60000 /\ s.tier[t].spacing > 0)
   /\ Sub("adaptive_tier_bounds", \A t \in DOMAIN s.atier : s.atier[t].baseFeeRate <= 60000 /\ s.atier[t].spacing > 0 /\ ValidAfConstants(s.atier[t].spacing, s.atier[t]))
-  /\ Sub("config_bounds", \A c \in DOMAIN s.cfg : s.cfg[c].defaultProtoRate <= 2500)
   /\ Sub("oracle_constants", \A p \in DOMAIN s.oracle : p \in DOMAIN s.pool => ValidAfConstants(s.pool[p].spacing, s.oracle[p]))
 
 MintRec(s, m) == [prog |-> s.mint[m].prog, exts |-> s.mint[m].exts, freeze |-> s.mint[m].freeze, defaultState |-> s.mint[m].defaultState,
@@ -1341,6 +1340,9 @@ IxOK(pre, e, post) ==
   /\ IF IsSwapName(e.name) THEN Chk("C20", "sdk_user_level_quote", C20QuoteUser(pre, e, post)) ELSE TRUE
   /\ Chk("C19", "params_in_bounds", C19State(post))
   /\ Chk("C19", "mint_admission", C19Admission(pre, e))
+  \* (setters reject out-of-bound values; the property bounds pools and fee tiers in every state, the config's default only
+  \* through its setter - a config created with another default must still not lead to a pool carrying it: pool_bounds)
+  /\ IF e.name = "set_default_protocol_fee_rate" THEN Chk("C19", "setter_rejects_out_of_bound", post.cfg[Id(e, "whirlpools_config")].defaultProtoRate <= 2500) ELSE TRUE
   /\ IF e.name \in {"initialize_pool", "initialize_pool_v2", "initialize_pool_with_adaptive_fee"}
      THEN Chk("C19", "pool_created_from_tier_and_config", InitPoolEffect(pre, e, post)) ELSE TRUE
   /\ Chk("C18", "life_cycle", C18Event(pre, e, post))
